@@ -49,6 +49,8 @@ def generate(R, tier):
               b"GET / HTTP/1.1\r\n Folded: first\r\n\r\n", b"\r\nGET / HTTP/1.1\r\n\r\n", b"\n", b"", b"GET / HTTP/1.1 \r\n\r\n", b"GET / HTTP/1.1\r\r\n\r\n",
               b"HTTP/0.9 200\r\n\r\n", b"HTTP/1.10 200\r\n\r\n", b"GET / HTTP/1.1\n\nbody", b"GET / HTTP/1.1\r\nA:1\r\n\tB\r\n C\r\n\r\n"):
         yield {"stream": "hand-picked", "payload": s.hex()}
+    for m in H.line_shapes():
+        yield {"stream": "line-shapes", "payload": m.hex()}
 
 
 def model_line(c):
